@@ -61,6 +61,7 @@ struct Obs
    std::string msg;
    size_t ebyte = 0, eline = 0, ecol = 0;
    std::vector< TraceEv > tr;
+   int hook = 0;  // peek_char / bump beyond the buffered window (TAO_PEGTL_VERIF hook)
    bool same( const Obs& o ) const
    {
       if( kind != o.kind ) return false;
@@ -86,6 +87,7 @@ static Obs observe( In& in )
    trace.clear();
    fuel = 3000;
    fuel_out = false;
+   verif_c03 = 0;
    try {
       const bool ok = p::parse< node< 0 >, trace_act, p::normal >( in );
       o.kind = ok ? 1 : 0;
@@ -109,6 +111,7 @@ static Obs observe( In& in )
    }
    if( fuel_out ) o.kind = 4;
    o.tr = trace;
+   o.hook = verif_c03;
    return o;
 }
 
@@ -161,6 +164,7 @@ static void buffer_runs( const char* cls, std::size_t maximum, bool overflow_all
       ++vf::st.evaluations;
       const bool shortread = std::any_of( X.choices.begin(), X.choices.end(), []( int c ) { return c != 0; } );
       if( shortread ) vf::count( "buffer_runs_with_short_reads" );
+      if( o.hook ) report( "read or cursor move beyond the buffered window", cls, nrules, input, ref, o, wrapper );
       if( o.kind == 3 ) {
          vf::count( "overflow_errors" );
          if( !overflow_allowed ) report( "std::overflow_error although the buffer can hold the whole input", cls, nrules, input, ref, o, wrapper );
@@ -353,6 +357,53 @@ int main( int argc, char** argv )
       tab[ 1 ] = save1;
    } );
    }  // rounds
+   // file based inputs at page-size boundaries: a JSON-like array padded to exactly n bytes, valid and with one bad byte at the end
+   if( vf::args.shard == 1 % vf::args.nshards ) {
+      for( unsigned i = 0; i < K; ++i ) tab[ i ] = { uint8_t( op_by_name( "FAILURE" ) ), 0, 0, 0 };
+      // n0 = seq( n3, n2 )   n3 = star( n4 )   n4 = one<'a'> | eol  ->  use STAR over SOR-free atoms: star( any ) would accept everything, so:
+      tab[ 0 ] = { uint8_t( op_by_name( "SEQ" ) ), 3, 2, 0 };
+      tab[ 2 ] = { uint8_t( op_by_name( "EOF_" ) ), 0, 0, 0 };
+      tab[ 3 ] = { uint8_t( op_by_name( "STAR" ) ), 4, 0, 0 };
+      tab[ 4 ] = { uint8_t( op_by_name( "ONE_A" ) ), 0, 0, 0 };
+      const size_t page = size_t( sysconf( _SC_PAGESIZE ) );
+      for( size_t n : { size_t( 0 ), size_t( 1 ), page - 1, page, page + 1, 2 * page, 2 * page + 1 } ) {
+         for( int bad = 0; bad < 2; ++bad ) {
+            std::string s( n, 'a' );
+            if( bad && n > 0 ) s[ n - 1 ] = 'b';
+            const std::string path = scratch + "/page_" + std::to_string( n ) + "_" + std::to_string( bad );
+            {
+               std::ofstream f( path, std::ios::binary );
+               f.write( s.data(), std::streamsize( s.size() ) );
+            }
+            all_files.push_back( path );
+            Obs ref;
+            {
+               p::memory_input<> in( s.data(), s.data() + s.size(), "src" );
+               ref = observe( in );
+            }
+            ref.tr.clear();  // the trace of a 8k star is not interesting; results and positions are
+            auto cmpf = [ & ]( const char* cls, Obs o ) {
+               o.tr.clear();
+               ++vf::st.evaluations;
+               X.begin( {} );
+               if( !o.same( ref ) ) report( "result differs from memory_input", cls, 5, "<" + std::to_string( n ) + " bytes>", ref, o, "seq<star<one<a>>,eof> on a file of page-boundary size" );
+            };
+            {
+               p::read_input<> in( path, "src" );
+               cmpf( "read_input, page-boundary file size", observe( in ) );
+            }
+            {
+               p::mmap_input<> in( path, "src" );
+               cmpf( "mmap_input, page-boundary file size", observe( in ) );
+            }
+            {
+               p::file_input<> in( path, "src" );
+               cmpf( "file_input, page-boundary file size", observe( in ) );
+            }
+            vf::count( "page_boundary_files" );
+         }
+      }
+   }
    // the `everything` rule on an incremental input whose buffer cannot hold the rest of the stream
    if( vf::args.shard == 0 ) {
       for( unsigned i = 0; i < K; ++i ) tab[ i ] = { uint8_t( op_by_name( "FAILURE" ) ), 0, 0, 0 };
